@@ -678,17 +678,23 @@ impl Check for C09 {
         // a slow but healthy terminal: every packet within 10 s of the previous one, a card reading as a
         // whole well inside the configured time - below any sensible time-out policy (the properties fix
         // no time-out values): no failure, so no reconnect, no resend
-        fams.push(Family::new("slow_but_healthy_terminal", 5 * 2, true, {
+        fams.push(Family::new("slow_but_healthy_terminal", 5 * 3, true, {
             let wl = wl.clone();
             move |i, _| {
                 let mut p = ClientPlan::plain(wl[(i % 5) as usize].clone());
                 p.cfg.max_tx = 2;
-                if i / 5 == 0 {
+                if i / 5 == 2 {
+                    // the card-reading time configured short, no card read in the history: the other
+                    // exchanges take as long as they take (their time-outs are not the card reading's)
+                    p.ops.retain(|o| !matches!(o, OpSpec::ReadCard { .. }));
+                    p.cfg.read_card_timeout = 1;
+                    p.pt.pace_ms = 5_000;
+                } else if i / 5 == 0 {
                     p.cfg.read_card_timeout = 15;
                     p.pt.pace_ms = 5_000;
                 } else {
                     p.cfg.read_card_timeout = 60;
-                    p.pt.pace_ms = 9_500;
+                    p.pt.pace_ms = 7_000;
                 }
                 p.label = "slow".into();
                 p
